@@ -4,6 +4,7 @@ Property theorems only; helper lemmas live in Proofs/.
 -/
 import TrimeshVerif.Proofs.Grouping
 import TrimeshVerif.Proofs.GroupingMore
+import TrimeshVerif.Generated.C06Pack
 namespace TV.C06
 open TV TV.Grouping
 
@@ -304,5 +305,17 @@ theorem C06_blocks_wrap_witnesses :
     blocks [0] 2 none true false = [[0, 0]] ∧ blocksSpec [0] 2 none true false = [] ∧
     blocks [0, 0, 1, 0] 1 (some 2) true false = [[3, 0, 1], [2]] ∧
     blocksSpec [0, 0, 1, 0] 1 (some 2) true false = [[2]] := by decide
+
+
+/-! ### (G) the packing constants of the source -/
+
+/-- (G) **`hashable_rows` in the current source packs with the constants the theorems are about**: up to 4 columns;
+    for 2, 3, 4 columns `precision = 64 / cols` and `threshold = 2^(precision-1) - 1` as in the model; the range
+    guard is `d_max < threshold and d_min > -threshold`, both strict (the guard of `C06_pack_injective`;
+    `C06_guard_needed` shows one step more collides) -/
+theorem C06_packing_constants_of_source :
+    TV.Generated.C06.maxCols = 4 ∧
+    TV.Generated.C06.packRows = [2, 3, 4].map (fun c => (c, precision c, threshold c)) ∧
+    TV.Generated.C06.guard = [("d_max", "lt", "threshold"), ("d_min", "gt", "-threshold")] := by decide
 
 end TV.C06
